@@ -606,6 +606,8 @@ func (ee *explainer) explainSeqContext1(l *gtab.SeqContext1) {
 }
 
 func (ee *explainer) explainSeqContext2(l *gtab.SeqContext2) {
+	// keep the keyword apart from a preceding lookup flag ("-marks class")
+	ee.w.WriteRune(' ')
 	ee.defineClasses("class", l.Input)
 	ee.w.WriteRune('/')
 	ee.explainCoverage(l.Cov)
@@ -665,6 +667,8 @@ func (ee *explainer) explainChainedSeqContext1(l *gtab.ChainedSeqContext1) {
 }
 
 func (ee *explainer) explainChainedSeqContext2(l *gtab.ChainedSeqContext2) {
+	// keep the keyword apart from a preceding lookup flag ("-marks inputclass")
+	ee.w.WriteRune(' ')
 	ee.defineClasses("backtrackclass", l.Backtrack)
 	ee.defineClasses("inputclass", l.Input)
 	ee.defineClasses("lookaheadclass", l.Lookahead)
